@@ -168,7 +168,7 @@ def _case(rng, kind, blocks, cplx, batched, x0kind=None, maxit=None, tol=None):
 
 def gen_systems(rng, tier):
     cases = []
-    n_cases = 150 if tier == 'quick' else 2500
+    n_cases = 260 if tier == 'quick' else 3000
     nmax = 5 if tier == 'quick' else 6
     kinds = ['spd', 'spd', 'spd', 'clustered', 'clustered', 'diag', 'batched', 'batched', 'complex', 'complex', 'complex_clustered', 'complex_batched', 'nonsym']
     for _ in range(n_cases):
